@@ -31,7 +31,12 @@ TEXT = {'C11': {'technique': 'Lean 4 proof by mutual structural induction over t
                   '(C02_step_prims_tie); the order of sub-steps/value tests and the two congruence nodes of each arm are checked against the one shape the '
                   'model implements (C02_step_shape_tie). The tie to the rest of evaluator.rs is differential: all closed arithmetic/conditional terms to '
                   'depth 2 over boundary operands (0, ±1, ±2^64, ±10^40 ...), samples at depth 3, recursive and mutually recursive groups, random raw terms, '
-                  'each compared step by step.',
+                  'each compared step by step. **Natural semantics (Lemmas/BigStep.lean): a big-step relation `Big` with one rule per construct, written as '
+                  'the language definition states it (function then argument then body; both operands then the primitive; only the chosen branch of a '
+                  'conditional; the first definition of a group, then the rest with its unfolding substituted — literally the right-hand side of the '
+                  "evaluator's group step), is proved equivalent to the small-step evaluator model: C02_big_sound, C02_big_complete, C02_big_iff_eval, "
+                  'C02_big_deterministic, inversion C02_big_rules; a fuelled big-step interpreter bigEval is sound, complete and fuel-monotone for it '
+                  '(C02_bigEval_sound/complete/mono), stuck and dividing-by-zero programs have no value (C02_big_stuck, C02_div0_no_value).**',
          'note': 'Trusted: Lean kernel, the three standard axioms, harness and driver. Modelled, not verified: evaluator.rs, de_bruijn.rs. Not modelled: the '
                  '16 MiB stack.'},
  'C09': {'technique': 'Lean 4 proof over a tokenizer model parametric in the Unicode classifier (invariants of the scanning loop by induction on fuel; keyword '
@@ -147,7 +152,11 @@ TEXT = {'C11': {'technique': 'Lean 4 proof by mutual structural induction over t
                   'other — for some fuel on either side, verdicts being fuel-independent (C18_ctx_wrap, C18_ctx_reject, C18_ctx_verdict, C18_ctx_accept_iff, '
                   'C18_params_wrap, C18_group_wrap, C18_mixed_wrap); conversion under parameters is conversion of the λ/Π-closed terms (C18_conv_lam, '
                   "C18_conv_pi, C18_conv_params), gram's unify pushes none / recurses / pops on binders (C18_unify_binder); conversion and normalisation under "
-                  'a definition group agree with the closed group up to conversion (C18_conv_group, C18_whnf_group, C18_convX_group).**',
+                  'a definition group agree with the closed group up to conversion (C18_conv_group, C18_whnf_group, C18_convX_group).** Translator tie: the '
+                  'calls that matter in every non-operator arm of type_check_rec and in the binder arms of unify (which child is checked when, what is unified '
+                  'with what, pushes and pops of the two contexts, the arguments of open/unsigned_shift) are regenerated from the sources on every run; '
+                  'C18_contexts_balanced_tie decides that pushes and pops are LIFO and paired in every arm, C18_checker_event_traces_tie that the sequences '
+                  'are the ones the model performs.',
          'note': 'Trusted: Lean kernel, standard axioms, harness/driver.'},
  'C13': {'technique': "Lean 4 proof that sorting makes the visiting order invariant under any permutation of a hash container's elements, plus `decide` that "
                       'every hash-iteration site extracted from the sources is a sorted one; repeated launches of the real binary with byte comparison',
@@ -270,18 +279,23 @@ TEXT = {'C11': {'technique': 'Lean 4 proof by mutual structural induction over t
                       'are parenthesised and `decide` that the atomic set equals the one regenerated from term.rs; model tied to term.rs by op `print` on '
                       'every (parent position, child former) pair of parser-produced terms, G-prog programs (parsed, elaborated, types) and raw terms with '
                       'cells; print / re-tokenize / re-parse oracle on the implementation',
-         'level': 'PARTIAL only on the very last step (the parser reading the sentence back to the SAME tree needs parser completeness). **Proved end to end '
-                  'up to there: the text printed for any term tokenizes — no error, no panic, no two printed tokens fuse — to exactly the token kinds '
-                  '`printKinds` (C16_print_tokenizes: for every classifier that treats the keyword letters, space, digits and `)` `}` `;` as Rust std does, '
-                  'and every name table mapping the printed names to identifier lexemes), and that token sequence is a sentence of grammar.y '
-                  '(C16_printed_text_is_sentence, C16_print_derives) for every term without an implicit non-dependent function type (KF-print-implicit; proved '
-                  'not a sentence) and without a negative literal (never in a parsed or elaborated term; `f -1` and `f - 1` are proved to be the same '
-                  'tokens).** The printed text is the flattening of a lexeme list that mirrors the printer arm by arm (C16_print_items), digits round-trip '
-                  '(C16_decimal_digits). Proved: the bare/parenthesised partition equals the regenerated table; group parenthesises exactly the non-atomic '
-                  'formers; every operand position of every operator, application and definition goes through group, the bare positions are exactly the listed '
-                  'ones; printing depends on indices only through the dependent/non-dependent test; resolved cells are transparent; pure and store layers '
-                  'agree. Searched: every parser-produced term is printed, re-read by the real front end and compared structurally (1038 of 1053 '
-                  'position/child pairs occur, the rest are impossible). Known finding KF-print-implicit (`{A} -> B`).',
+         'level': 'The chain print → tokenize → parse is now closed by proof up to the last two passes: **C16_parse_printed — for every printable term, the '
+                  'parser model run on ANY token array whose kinds are the printed kinds succeeds, records no error, consumes every token and returns exactly '
+                  'the expected tree (names, implicitness, annotations, operator structure, `group` flags, with exact token-span ranges): completeness of all '
+                  '36 packrat functions on the printed sublanguage, ordered choice included (every earlier alternative is shown to fail); '
+                  'C16_chain_left_nested / C16_printed_application_left_nested — the applications pass gives printed application chains their left nesting '
+                  'back.** Still pending (stated, listed in pending_statements, decided per term on the implementation): C16_read_back — the other two passes '
+                  'and name resolution return the term itself. **Proved end to end up to there: the text printed for any term tokenizes — no error, no panic, '
+                  'no two printed tokens fuse — to exactly the token kinds `printKinds` (C16_print_tokenizes: for every classifier that treats the keyword '
+                  'letters, space, digits and `)` `}` `;` as Rust std does, and every name table mapping the printed names to identifier lexemes), and that '
+                  'token sequence is a sentence of grammar.y (C16_printed_text_is_sentence, C16_print_derives) for every term without an implicit '
+                  'non-dependent function type (KF-print-implicit; proved not a sentence) and without a negative literal (never in a parsed or elaborated '
+                  'term; `f -1` and `f - 1` are proved to be the same tokens).** The printed text is the flattening of a lexeme list that mirrors the printer '
+                  'arm by arm (C16_print_items), digits round-trip (C16_decimal_digits). Proved: the bare/parenthesised partition equals the regenerated '
+                  'table; group parenthesises exactly the non-atomic formers; every operand position of every operator, application and definition goes '
+                  'through group, the bare positions are exactly the listed ones; printing depends on indices only through the dependent/non-dependent test; '
+                  'resolved cells are transparent; pure and store layers agree. Searched: every parser-produced term is printed, re-read by the real front end '
+                  'and compared structurally (1038 of 1053 position/child pairs occur, the rest are impossible). Known finding KF-print-implicit (`{A} -> B`).',
          'note': 'Trusted: Lean kernel, standard axioms, extractor, harness/driver.'},
  'C19': {'technique': 'Lean proofs of the evaluation-level facts behind the rewrites (if-true, applied identity, unused definition, named subexpression) and '
                       'that names never influence shifting, opening, stepping or evaluation; metamorphic search on the implementation: seven rewrite kinds '
